@@ -130,3 +130,106 @@ def _root_local(f, l):
                 continue
         return l
     return l
+
+
+# ---------------------------------------------------------------------------------------------------------------------
+# R-SIGN-CARRIER (C16, C19, C20): the sign of a sexagesimal / packed angle survives a zero degrees field
+
+SIGN_FNS = ("::signum", "::copysign", "::is_sign_negative", "::is_sign_positive")
+
+
+def _float_abs_args(t):
+    """arguments X of f64::abs(X) occurring in the additive/multiplicative skeleton of t"""
+    out = []
+
+    def v(x):
+        if x[0] == "call" and isinstance(x[1], str) and x[1].endswith("::abs") and "f64" in x[1] and x[2]:
+            out.append(x[2][0])
+            return False
+        return True
+
+    mir.walk(t, v)
+    return out
+
+
+@rule("R-SIGN-CARRIER", ["C16", "C19", "C20"])
+def r_sign_carrier(cx):
+    """Where an angle is assembled as  sign * (|X| + minutes/60 + ...)  from a floating point field X, the sign is
+    taken from X's sign bit (signum, copysign, is_sign_negative) - not from an ordered comparison: X = -0.0 (as in
+    `-0:30:36`, or the ISO 6709 value -0030.6) compares equal to zero, and the negative sign of an angle with zero
+    whole degrees would be lost."""
+    import elems as E
+    n = 0
+    for name in sorted(cx.f.lib["fns"]):
+        if not name.startswith("math::angular::") or "::tests::" in name or "{closure" in name:
+            continue
+        f = cx.f.fn(name)
+        rt = E.return_term(f)
+        if rt is None:
+            continue
+        muls = []
+
+        def v(x):
+            if x[0] == "bin" and x[1] == "Mul":
+                muls.append(x)
+            return True
+
+        mir.walk(rt, v)
+        judged = False
+        for m in muls:
+            for mag, sgn in ((m[2], m[3]), (m[3], m[2])):
+                if not (mag[0] == "bin" and mag[1] == "Add"):
+                    continue
+                xs = _float_abs_args(mag)
+                if not xs or _float_abs_args(sgn):
+                    continue
+                X = xs[0]
+                if judged:
+                    continue
+                judged = True
+                n += 1
+                carriers = []
+
+                def w(y):
+                    if y[0] == "call" and isinstance(y[1], str) and y[1].endswith(SIGN_FNS) and y[2] and y[2][0] == X:
+                        carriers.append(y)
+                    return True
+
+                mir.walk(sgn, w)
+                ok = bool(carriers)
+                cx.ob("R-SIGN-CARRIER", name, ok,
+                      "%s takes the sign of the angle from the sign bit of the field whose magnitude it uses" % name if ok
+                      else "%s builds sign * (|x| + ...) but derives the sign from a comparison of x with zero (or not "
+                           "from x at all): for x = -0.0 (`-0:30`) the sign is lost" % name, cx.where(f.d["span"]))
+    cx.count("R-SIGN-CARRIER", "assembled_angles", n)
+    # the packed ISO 6709 encodings: f64 -> f64 converters are odd functions, written as signum(x) * g(|x|)
+    k = 0
+    for name in sorted(cx.f.lib["fns"]):
+        if not name.startswith("math::angular::") or "::tests::" in name or "{closure" in name:
+            continue
+        short = name.rsplit("::", 1)[-1]
+        f = cx.f.fn(name)
+        if short.startswith("normalize") or f.nargs != 1 or str(f.local_ty(1)) != "f64" or str(f.local_ty(0)) != "f64":
+            continue
+        k += 1
+        rt = E.return_term(f)
+        for _ in range(3):
+            if rt is not None and rt[0] == "call":
+                r2 = E.inline_call(f, rt, f.end_point(rt[3]) if isinstance(rt[3], int) else None)
+                if r2 is None:
+                    break
+                rt = r2
+            else:
+                break
+        ok = False
+        if rt is not None and rt[0] == "bin" and rt[1] == "Mul":
+            for side in (rt[2], rt[3]):
+                s0 = mir.strip_refs(side)
+                if s0[0] == "call" and isinstance(s0[1], str) and s0[1].endswith(SIGN_FNS) and s0[2] and \
+                        mir.strip_refs(s0[2][0]) == ("arg", 1):
+                    ok = True
+        cx.ob("R-SIGN-CARRIER", name + "/odd", ok,
+              "%s = signum(x) * g(|x|): the sign bit of the input is the sign of the result" % name if ok else
+              "%s is not of the form signum(x) * g(|x|): the sign of an input with zero whole degrees (e.g. -0030.6) "
+              "passes through a value that cannot hold it" % name, cx.where(f.d["span"]))
+    cx.count("R-SIGN-CARRIER", "packed_converters", k)
